@@ -189,6 +189,33 @@ pub fn emit(dir: &Path) {
       db.rels.insert("reach".into(), vec![vec![i(7), i(9)], vec![i(8), i(2)]]);
       write(dir, "KF-8.json", "C08", "KF-8", Program { rels, rules, macros: vec![mac] }, Kind::Ascent, vec![], db);
    }
+   // KF-22: a unit-like identifier pattern (`None`) inside a macro body is renamed like a macro-local variable and
+   // becomes a binder that matches everything
+   {
+      let rels = vec![rel("hop", vec![Ty::I32, Ty::OptI32], true), rel("out", vec![Ty::I32, Ty::I32], false)];
+      let mac = MacroDef {
+         name: "mq".into(),
+         params: vec![
+            MacroParam { name: "p0".into(), is_ident: true, ty: Ty::I32, role: "soft".into() },
+            MacroParam { name: "p1".into(), is_ident: true, ty: Ty::I32, role: "hard".into() },
+         ],
+         body: vec![
+            BodyItem::Clause { rel: "hop".into(), args: vec![av("$p0"), av("y")], conds: vec![] },
+            BodyItem::Cond(Cond::IfLet(Pat::Some_(Box::new(Pat::Var("$p1".into()))), v("y"))),
+            BodyItem::Clause { rel: "hop".into(), args: vec![av("$p1"), av("y")], conds: vec![Cond::IfLet(Pat::None_, v("y"))] },
+         ],
+         head: vec![],
+         is_head: false,
+      };
+      let call = |a: &str, b: &str| BodyItem::MacroCall {
+         name: "mq".into(),
+         args: vec![MacroArg { is_ident: true, ident: a.into(), expr: None }, MacroArg { is_ident: true, ident: b.into(), expr: None }],
+      };
+      let rules = vec![Rule { heads: vec![hd("out", vec![v("a"), v("b")])], body: vec![call("a", "b")] }];
+      let mut db = Db::default();
+      db.rels.insert("hop".into(), vec![vec![i(2), Val::some(i(2))], vec![i(2), Val::None_]]);
+      write(dir, "KF-22.json", "C08", "KF-22", Program { rels, rules, macros: vec![mac] }, Kind::Ascent, vec![], db);
+   }
    // KF-11: ternary eqrel filled in a recursive stratum
    {
       let k = Ty::I32;
